@@ -308,7 +308,7 @@ def b2u (b : Bool) : UInt64 := if b then 1 else 0
     `which` := v, the four code bytes at the installed PC restored (raw, unless PC itself is swept), one step.
     Memory is carried from one iteration to the next.  Hashes: registers without F/PC/R (+ final memory),
     F under 0xD7, PC+SP, T-states, Zilog T-states where documented, control state. -/
-def sweepReg (c0 : Cpu) (which blk nblk : Nat) (fmask : UInt8) : String := Id.run do
+def sweepReg (c0 : Cpu) (which blk nblk : Nat) (fmask : UInt8) (link : Nat := 99) (delta : UInt16 := 0) : String := Id.run do
   let per := 65536 / nblk
   let a0 := c0.arch
   let pc0 := a0.reg.pc
@@ -334,7 +334,7 @@ def sweepReg (c0 : Cpu) (which blk nblk : Nat) (fmask : UInt8) : String := Id.ru
       if which == 6 then mem0
       else (((mem0.setIfInBounds pc0.toNat c0b).setIfInBounds (pc0 + 1).toNat c1b).setIfInBounds
               (pc0 + 2).toNat c2b).setIfInBounds (pc0 + 3).toNat c3b
-    let a : Arch := { reg := setWhich a0.reg which v, alt := a0.alt, bus := { mem := mem1, rom := rom0 }, halt := a0.halt,
+    let a : Arch := { reg := (if link < 8 then setWhich (setWhich a0.reg which v) link (v + delta) else setWhich a0.reg which v), alt := a0.alt, bus := { mem := mem1, rom := rom0 }, halt := a0.halt,
                       int := a0.int, nmi := a0.nmi, im := a0.im, iff1 := a0.iff1, iff2 := a0.iff2 }
     let wk := a.wakes
     let (a', cyc, info) := stepArch a
@@ -454,6 +454,10 @@ def handle (st : DState) (line : String) : DState × String :=
     | none => bad
   | "SW" :: rest => (st, cmdSweep rest)
   | "SWX" :: rest => (st, cmdSweepX rest)
+  | ["SWR", w, b, n, fm, lk, dl] => match parseHex w, parseHex b, parseHex n, parseHex fm, parseHex lk, parseHex dl with
+    | some w, some b, some n, some fm, some lk, some dl =>
+      if n == 0 || 65536 % n != 0 || b ≥ n then bad else (st, sweepReg st.cpu w b n (UInt8.ofNat fm) lk (UInt16.ofNat dl))
+    | _, _, _, _, _, _ => bad
   | ["SWR", w, b, n, fm] => match parseHex w, parseHex b, parseHex n, parseHex fm with
     | some w, some b, some n, some fm =>
       if n == 0 || 65536 % n != 0 || b ≥ n then bad else (st, sweepReg st.cpu w b n (UInt8.ofNat fm))
